@@ -68,7 +68,7 @@ fn prior(r: &mut Rng, p: &mut Parser, log: &mut Log, id: Option<u8>, n: u8) -> &
 }
 
 /// a line the statements say is inert between fragments
-fn inert_line(r: &mut Rng, group_id: Option<u8>) -> (Vec<u8>, bool, &'static str) {
+fn inert_line(r: &mut Rng, group_id: Option<u8>, group_n: u8, next_k: u8) -> (Vec<u8>, bool, &'static str) {
     match r.below(5) {
         0 => (nmea_ref::mk(1, 1, None, b"15RTgt0PAso;90TKcjM8h6g208CQ", 0), true, "unfrag-decodable"),
         1 => (nmea_ref::mk(1, 1, Some(9), b"zzzz", 0), true, "unfrag-undecodable"),
@@ -79,9 +79,21 @@ fn inert_line(r: &mut Rng, group_id: Option<u8>) -> (Vec<u8>, bool, &'static str
         }
         3 => (b"$GPGGA,123519,4807.038,N,01131.000,E,1,08,0.9,545.4,M,46.9,M,,*47".to_vec(), false, "malformed"),
         _ => {
-            // sequencing-rejected stranger: k >= 2 with another id
-            let other = Some(group_id.map_or(7, |x| ((x as u16 + 5) % 10) as u8));
-            (nmea_ref::mk(5, r.range(2, 5) as u8, other, &uniq_payload(7100), 0), false, "stranger")
+            // sequencing-rejected stranger: another id, half of the time with exactly the count
+            // and number the open group expects next; ids that an implementation might confuse
+            // with "no id" (255, 0) are preferred partners of a group without id and vice versa
+            let other = match (group_id, r.below(3)) {
+                (None, 0) => Some(255),
+                (None, 1) => Some(0),
+                (Some(255), 0) | (Some(0), 0) => None,
+                (Some(_), 1) => None,
+                (g, _) => Some(g.map_or(7, |x| ((x as u16 + 5) % 10) as u8)),
+            };
+            if r.bool() {
+                (nmea_ref::mk(group_n, next_k, other, &uniq_payload(7100), 0), false, "stranger-next-number")
+            } else {
+                (nmea_ref::mk(5, r.range(2, 5) as u8, other, &uniq_payload(7100), 0), false, "stranger")
+            }
         }
     }
 }
@@ -131,7 +143,7 @@ fn run_case(rep: &mut Report, r: &mut Rng, c: &Case) {
         let line = b.line();
         if c.interleave && j > 0 {
             for _ in 0..r.below(4) {
-                let (l, d, cls) = inert_line(r, c.id);
+                let (l, d, cls) = inert_line(r, c.id, n, k);
                 let _ = feed(&mut p, &mut log, l, d);
                 inter.push(cls);
             }
